@@ -848,20 +848,20 @@ def check_C10(tier, seed):
                  ("bucketdel", "overflow", 64, 6, ["--decode", "1", "--reopen-every", "1"]),
                  ("varsize", "two", 16, 10, ["--decode", "1"])]
     else:
-        plans = [("fixed", "two", 64, 700, ["--reopen-every", "101"]),
-                 ("varsize", "overflow", 24, 300, ["--reopen-every", "37"]),
-                 ("delins", "three", 40, 700, []),
-                 ("bucketdel", "overflow", 20, 1500, ["--reopen-every", "250"]),
-                 ("bucketdel", "longkey", 16, 500, []),
-                 ("fixed", "overflow", 32, 600, ["--reader-from", "50", "--reader-to", "200", "--num-pages", "65536"]),
-                 ("varsize", "hibytes", 32, 300, ["--reader-from", "20", "--reader-to", "60", "--num-pages", "65536"]),
-                 ("fixed", "two", 32, 400, ["--reader-plan", "o1@4,o2@6,o3@8,c1@11,c3@12,c2@13,o4@50,o9@50,o5@52,o6@54,o7@56,c4@58,c6@60,c9@61,c7@62,c5@63",
+        plans = [("fixed", "two", 64, 300, ["--reopen-every", "101"]),
+                 ("varsize", "overflow", 24, 150, ["--reopen-every", "37"]),
+                 ("delins", "three", 40, 300, []),
+                 ("bucketdel", "overflow", 20, 500, ["--reopen-every", "125"]),
+                 ("bucketdel", "longkey", 16, 250, []),
+                 ("fixed", "overflow", 32, 200, ["--reader-from", "30", "--reader-to", "90", "--num-pages", "65536"]),
+                 ("varsize", "hibytes", 32, 120, ["--reader-from", "20", "--reader-to", "60", "--num-pages", "65536"]),
+                 ("fixed", "two", 32, 200, ["--reader-plan", "o1@4,o2@6,o3@8,c1@11,c3@12,c2@13,o4@50,o9@50,o5@52,o6@54,o7@56,c4@58,c6@60,c9@61,c7@62,c5@63",
                                             "--num-pages", "65536"]),
                  ("bucketdel", "overflow", 16, 60, ["--decode", "1"]),
                  ("varsize", "two", 24, 40, ["--decode", "1"]),
                  ("delins", "three", 30, 40, ["--decode", "1"]),
-                 ("bucketdel", "overflow", 64, 30, ["--decode", "1", "--reopen-every", "1"]),
-                 ("bucketdel", "overflow", 120, 12, ["--decode", "1", "--reopen-every", "2"])]
+                 ("bucketdel", "overflow", 64, 20, ["--decode", "1", "--reopen-every", "1"]),
+                 ("bucketdel", "overflow", 120, 8, ["--decode", "1", "--reopen-every", "2"])]
     series = []
     for kind, prof, nk, cycles, extra in plans:
         build_harness()
